@@ -197,6 +197,19 @@ class Encoder(object):
                 if t[2] < 0:
                     raise EncodingUnsupported("negative shift")
                 return a / z3.IntVal(1 << t[2])
+            lo, hi = bounds(t[2], self.bmemo)
+            if hi is None or hi > MAX_SHIFT_SPLIT:
+                # unbounded count: a value of at most K bits is shifted out entirely by K or more
+                al, ah = bounds(t[1], self.bmemo)
+                if al is None or ah is None:
+                    raise EncodingUnsupported("shift of an unbounded value by an unbounded count")
+                K = max(abs(al).bit_length(), abs(ah).bit_length()) + 1
+                if K > MAX_SHIFT_SPLIT:
+                    raise EncodingUnsupported("shift of a very wide value by an unbounded count")
+                r = z3.If(a < 0, z3.IntVal(-1), z3.IntVal(0))
+                for k in range(K, -1, -1):
+                    r = z3.If(b == k, a / z3.IntVal(1 << k), r)
+                return r
             return a / self._pow2(t[2], b)
         if op == "pow":
             if isinstance(t[2], int) and 0 <= t[2] <= 8:
@@ -248,8 +261,13 @@ class BVEncoder(object):
                         raise EncodingUnsupported("bv: unbounded variable %s" % t[1])
                     need = max(need, abs(t[3]).bit_length() + 2, abs(t[4]).bit_length() + 2)
                 continue
+            if op == "mod" and isinstance(t[2], int) and t[2] > 0 and isinstance(t[1], tuple) and t[1][0] == "uf":
+                # f(args) mod m: only the residue of the uninterpreted value is observed -> a function into [0, m)
+                need = max(need, t[2].bit_length() + 2)
+                stack.extend(x for x in t[1][2:])
+                continue
             if op in ("uf", "ufb"):
-                raise EncodingUnsupported("bv: uninterpreted function")
+                raise EncodingUnsupported("bv: uninterpreted function outside a `mod m` context")
             if op == "pow" and not (isinstance(t[2], int) and 0 <= t[2] <= 8):
                 raise EncodingUnsupported("bv: pow")
             if sort_of(t) == "I":
@@ -309,6 +327,15 @@ class BVEncoder(object):
             return self.enc(t[1]) == self.enc(t[2])
         if op in ("ite", "iteb"):
             return z3.If(self.enc(t[1]), self.enc(t[2]), self.enc(t[3]))
+        if op == "mod" and isinstance(t[2], int) and t[2] > 0 and isinstance(t[1], tuple) and t[1][0] == "uf":
+            name, args = t[1][1], t[1][2:]
+            key = (name, len(args), t[2])
+            f = self.ufs.get(key)
+            if f is None:
+                f = z3.Function("%s_mod%d" % (name, t[2]), *([z3.BitVecSort(self.W)] * (len(args) + 1)))
+                self.ufs[key] = f
+            v = f(*[self.enc(x) for x in args])
+            return z3.URem(v, self.c(t[2]))
         a, b = self.enc(t[1]), self.enc(t[2])
         if op == "eq": return a == b
         if op == "lt": return a < b
